@@ -25,6 +25,9 @@ type CallResult struct {
 	Panic  interface{}
 	Deps   string // always recorded, printed only under `trace 1`
 	Diff   []DiffEntry
+	// InputChanged names the scalar / header fields of the ContractCallInput that differ after the call ("" = none):
+	// the input is the caller's structure (C13: the call never modifies it)
+	InputChanged string
 }
 
 // Call is a parsed `call` op.
@@ -113,7 +116,7 @@ func (w *World) Call(c *Call) *CallResult {
 }
 
 func (sh *shard) present(addr []byte) bool {
-	return bytes.Equal(addr, vmcommon.SystemAccountAddress) || sh.coord.ComputeId(addr) == sh.id
+	return bytes.Equal(addr, vmcommon.SystemAccountAddress) || sh.coord.ComputeId(addr) == sh.coord.self
 }
 
 func (sh *shard) run(w *World, c *Call, fault int) (res *CallResult) {
@@ -166,7 +169,28 @@ func (sh *shard) run(w *World, c *Call, fault int) (res *CallResult) {
 			RecipientAddr: c.Rcv,
 			Function:      c.Fn,
 		}
+		before := *input
 		tr.active = true
+		defer func() {
+			var ch []string
+			add := func(c bool, n string) {
+				if c {
+					ch = append(ch, n)
+				}
+			}
+			add(input.GasProvided != before.GasProvided, "GasProvided")
+			add(input.GasLocked != before.GasLocked, "GasLocked")
+			add(input.GasPrice != before.GasPrice, "GasPrice")
+			add(input.CallType != before.CallType, "CallType")
+			add(input.ReturnCallAfterError != before.ReturnCallAfterError, "ReturnCallAfterError")
+			add(input.Function != before.Function, "Function")
+			add(input.CallValue != before.CallValue, "CallValue(pointer)")
+			add(len(input.Arguments) != len(before.Arguments) || (len(input.Arguments) > 0 && &input.Arguments[0] != &before.Arguments[0]), "Arguments(header)")
+			add(len(input.CallerAddr) != len(before.CallerAddr) || (len(input.CallerAddr) > 0 && &input.CallerAddr[0] != &before.CallerAddr[0]), "CallerAddr(header)")
+			add(len(input.RecipientAddr) != len(before.RecipientAddr) || (len(input.RecipientAddr) > 0 && &input.RecipientAddr[0] != &before.RecipientAddr[0]), "RecipientAddr(header)")
+			add(input.AllowInitFunction != before.AllowInitFunction, "AllowInitFunction")
+			res.InputChanged = strings.Join(ch, ",")
+		}()
 		out, err = f.ProcessBuiltinFunction(snd, dst, input)
 	}()
 	res.Deps = string(tr.letters)
